@@ -91,6 +91,27 @@ check("C17", "A", "exploration",
       "All 1 365 (thorough 21 845) destination strings over {/, ., .., a}; 22 621 capability strings over 12 tokens incl. tab, non-ASCII, NUL; 35 (type, level) pairs across and beyond each encoder's range; hostile metadata strings and mode integers through every setter. Oracle: no panic; must-reject destinations and unknown capability text give errors; accepted levels give a readable package.",
       "Which in-between destinations are accepted is not specified.", "DESIGN.md 3/C17")
 
+# Extensions added after the seeded rounds (appended to the texts above; the technique gets the part in the first slot).
+MORE = {
+ "C01": ("", "Also: size-like tags that disagree with the byte lengths, entries behind the immutable region, assets with appended bytes; the written bytes must not depend on the sink (plain and vectored partial writes)."),
+ "C02": ("; explicit-state exploration of operation sequences on one live Package (aged object versus freshly parsed object)", "Also: signature index sorted/reversed x the verifier's algorithm() answer (1.58 M shapes); recorded digests truncated / empty / extended; every sequence of <= 4 (5) operations {verify, clone, assignments to the public fields} on a long-lived object must answer like a freshly parsed object of the same bytes."),
+ "C03": ("; operation sequences on one live Package (aged versus fresh)", "Also: index orders reversed/rotated, digest length variants (truncated / empty / extended), aged-versus-fresh operation sequences judged on verify_digests."),
+ "C04": ("", "Also: header-declared file sizes that disagree with the archive; every oversized allocation is attributed to its innermost rpm:: call site (known finding: pgp packet parser reached from Verifier::parse_signature, thorough tier)."),
+ "C05": ("", "Also: index entries reversed/rotated, a tag's entry behind the immutable region, HEADERI18NTABLE variants, upper-case hex digests; two deviations in both tiers."),
+ "C06": ("", "Also: user/group owners with hand-given recommends, zoned chrono source dates, every configuration with files or a signature additionally under an interposed early wall clock."),
+ "C07": ("", "Also: file sets whose paths are prefixes/suffixes/case variants of one another; zstd levels 20-22."),
+ "C08": ("; exhaustive enumeration of Signing implementations' read patterns and of same-source rewrite sequences", "Also: 3 packages x 4 keys x 7 ways a user-supplied Signing implementation consumes its reader (incl. detached signatures that never read) x {sign, sign_with_timestamp, build_and_sign}; one builder with 2-3 (4) with_file calls from one source path rewritten in between (4 contents x 2 mtimes, all sequences)."),
+ "C10": ("", "Also: failed signing attempts (signer returns an error / garbage; protected key without or with a wrong passphrase) must leave the package unchanged; write+parse through 3-byte reads; five keys in the verify matrix."),
+ "C11": ("", "Also: 10 configurations incl. zoned chrono source dates; 256 seeds in the quick tier; cpio entry mtimes."),
+ "C12": ("", "Current alphabet: 450 single entries (5 directory names x 10 base names x 9 kinds), pairs over 162 (quick) / all (thorough), each as newc and as stripped (large-file) archive; the snapshot compares content, type and permission bits."),
+ "C13": ("", "Also: numeric segments at the u32/i64/u64/u128 boundaries x leading zeros, epochs with leading zeros."),
+ "C14": ("", "Current bounds: <= 2 (3) deviating answers; plain and vectored writes; subjects whose stores end with each entry type."),
+ "C15": ("", "Also: epochs up to and beyond u32::MAX; texts of length 3..4096 with a multi-byte character straddling each power-of-two boundary."),
+ "C16": ("", "Also: the public Header API (clear, new_empty, clear_signatures); entries behind the immutable region; the bytes written to 1-, 3- and 4096-byte plain and vectored sinks equal those written to a Vec."),
+ "C17": ("", "Also: pairs of destinations naming the same payload path in two spellings; levels with high bits set (>= 256)."),
+ "C19": ("", "Also: every string of <= 6 (7) of 12 characters and <= 5 (6) of 16 characters incl. Unicode white space; long names and many clauses."),
+}
+
 NOT_YET = {}
 
 def main():
@@ -103,7 +124,10 @@ def main():
     na = []
     for p in props:
         if p in CHECKS and p not in extra_na:
-            c = CHECKS[p]
+            c = dict(CHECKS[p])
+            if p in MORE:
+                c["technique"] += MORE[p][0]
+                c["text"] += " " + MORE[p][1]
             checks.append({
                 "property_id": p,
                 "quick_cmd": f"./check {p} --tier quick",
